@@ -351,7 +351,7 @@ fn build(segs: Vec<SegRaw>, fin: u16, fin_seg: SegRaw, header: Header, cap_sel: 
                 data.extend(chars);
             }
             _ => {
-                let n = if big && s.len % 5 == 0 { 250 + pick(s.len, 400) } else { 1 + pick(s.len, 14) };
+                let n = if big && s.len % 5 == 0 { [248, 249, 250, 251, 250 + pick(s.len, 400), 249, 250][(s.len as usize / 5) % 7] } else { 1 + pick(s.len, 14) };
                 let chars: Vec<u8> = (0..n).map(|i| restrict(cs, s.seeds[i % 24].wrapping_mul((i / 24) as u8 * 2 + 1).wrapping_add((i / 24) as u8))).collect();
                 len_cw += 1 + if n < 250 { 1 } else { 2 } + n;
                 steps.push(Step::Seg(Mode::Base256, n));
@@ -460,7 +460,7 @@ fn build(segs: Vec<SegRaw>, fin: u16, fin_seg: SegRaw, header: Header, cap_sel: 
             slack_max = 2 - t;
         }
         _ => {
-            let n = if big && s.len % 7 == 0 { 250 + pick(s.len, 300) } else { 1 + pick(s.len, 14) };
+            let n = if big && s.len % 7 == 0 { [248, 249, 250, 251, 250 + pick(s.len, 300), 249, 250][(s.len as usize / 7) % 7] } else { 1 + pick(s.len, 14) };
             let chars: Vec<u8> = (0..n).map(|i| restrict(cs, s.seeds[i % 24].wrapping_add((i / 24) as u8 * 7))).collect();
             len_cw += 2 + n;
             steps.push(Step::FinalBase256ToEnd(n));
